@@ -5,6 +5,8 @@ import Jsonapi.Model.Schema
 import Jsonapi.Generated.Facts
 import Jsonapi.Props.C09
 import Jsonapi.Props.C10
+import Jsonapi.Props.C11
+import Jsonapi.Props.C12
 import Jsonapi.Props.C14
 import Jsonapi.Props.C15
 import Jsonapi.Props.C16
